@@ -731,6 +731,34 @@ pub fn verdict_c09(h: &DecHistory, sc: &mut Scratch, st: &mut Stats, enumerated:
     // are, and the twin runs decode_to_utf8_without_replacement into a buffer of the same size
     let out = sc.drv.run(&hr);
     classify_common(&hr, &out, st);
+    if hr.caps.iter().any(|c| (crate::drive_dec::CAP_UNDER_BASE..crate::drive_dec::CAP_UNDER_BASE + 8).contains(c)) {
+        // Histories that contain a destination below the documented minimum: such a call may panic
+        // (history discarded) or make no progress, and the twin cannot be given "the same buffer"
+        // meaningfully; what the property still says is that the with-replacement TEXT and the OR
+        // of the flags equal the manual procedure's - compared with a manual run in ample buffers.
+        if out.aborted_undersized {
+            st.class("call-below-the-documented-minimum-panicked-(history-without-verdict)");
+            return None;
+        }
+        if let Some(m) = describe_fault(&out, &[FaultKind::Panic, FaultKind::Range]) {
+            return Some((m, "C09:fault".into()));
+        }
+        if !out.completed {
+            return None;
+        }
+        let r = sc.reference(hr.enc, hr.mode, hr.sink, false, &hr.stream);
+        if !r.ok {
+            return Some((format!("manual-procedure reference run failed: {}", r.problem), "C09:reference".into()));
+        }
+        nontrivial_mark(st, enumerated, h);
+        if out.scalars(hr.sink) != r.scalars {
+            return Some((format!("text with replacement [{}] differs from the manual procedure [{}] (the history contains a call with a destination below the documented minimum, which returned normally)", fw::hex32(out.scalars(hr.sink).as_ref().unwrap_or(&vec![])), fw::hex32(r.scalars.as_ref().unwrap_or(&vec![]))), "C09:total".into()));
+        }
+        if out.had_errors != r.had_errors {
+            return Some((format!("OR of had_errors = {} but the manual procedure saw {} error(s)", out.had_errors, r.errors.len()), "C09:or".into()));
+        }
+        return None;
+    }
     if !out.completed {
         return Some((format!("with-replacement history did not complete: {}", incomplete_reason(&out)), "C09:incomplete".into()));
     }
